@@ -2,9 +2,10 @@ SPECIFICATION Spec
 CONSTANT MaxNodes = 7
 CONSTANT MaxLeaves = 4
 CONSTANT MaxList = 3
+CONSTANT MaxSingles = 3
 CONSTANT SymLeaves = 3
 CONSTANT Design = "reference"
-CONSTANT Domains = {"lists", "labels", "symbols", "structure"}
+CONSTANT Domains = {"singles", "lists", "labels", "symbols", "structure"}
 INVARIANT DomainWithinProperty
 INVARIANT RoundTripHolds
 CHECK_DEADLOCK FALSE
